@@ -36,6 +36,12 @@ SP == 32  NBSP == 160  IDSP == 12288  SHY == 173  HY == 45  NL == 10  CR == 13  
 WS == {SP, IDSP, NL, CR, ZW}
 NLCh == {NL, CR}                \* explicit line breaks: LF, CR, and CR LF (one break)
 GlueCh == {SP, IDSP}
+\* Round 5. (a) OBJ: the placeholder character of an inline object (RichText.WriteCanvas / WritePath / WriteImage): the
+\* event gives the width of the objects (objw) and every span the number of objects it carries (no).
+\* (b) single-line layout (canvas.NewTextLine, event.api = "line"): every paragraph separator of Unicode starts a new line
+OBJ == 65533
+VT == 11  FF == 12  NEL == 133  LSEP == 8232  PSEP == 8233
+SepCh == {NL, VT, FF, CR, NEL, LSEP, PSEP}
 
 \* ---- sequences of code points --------------------------------------------------------------------------------
 RECURSIVE Flat(_)
@@ -82,6 +88,41 @@ NGlue(ln) == LET t == LineText(ln) IN Count(t, 1, Len(t), SP) + Count(t, 1, Len(
 \* glue is stretched in whole font units: (glue glyphs + 1) * size/unitsPerEm, plus the quantisation of the log
 LTol(e, ln) == (NGlue(ln) + 1) * e.u + 2
 FirstIndent(e, j) == IF j = 1 THEN e.indent ELSE 0
+\* the advance the line breaker reserves for an inline object is its width truncated to whole font units
+NObj(ln) == LET t == LineText(ln) IN Count(t, 1, Len(t), OBJ)
+OTol(e, ln) == NObj(ln) * e.u
+RECURSIVE SortSet(_)
+SortSet(S) == IF S = {} THEN <<>> ELSE LET m == MinOf(S) IN <<m>> \o SortSet(S \ {m})
+
+\* ---- single-line layout (NewTextLine): the text is cut at every paragraph separator (CR LF is one); segment number v
+\* (from 0, empty segments counted) is shown on a line at depth v * line height, empty segments show nothing.
+\* event: [api = "line", text, align \in {"L","R","C"}, lh : line height (ascent + descent + line gap), lines, bounds]
+LineFails(e) ==
+  LET R == e.text
+      IsBrk(i) == R[i] \in SepCh /\ ~(R[i] = NL /\ i > 1 /\ R[i-1] = CR)
+      NonSep == {i \in 1..Len(R) : R[i] \notin SepCh}
+      SegOf(i) == Cardinality({m \in 1..i : IsBrk(m)})
+      V == SortSet({SegOf(i) : i \in NonSep})
+      SegText(v) == LET P == SortSet({i \in NonSep : SegOf(i) = v}) IN [n \in 1..Len(P) |-> R[P[n]]]
+      k == Len(e.lines)
+      content == /\ k = Len(V)
+                 /\ \A j \in 1..k : LineText(e.lines[j]) = SegText(V[j]) /\ LineGlyphs(e.lines[j]) = SegText(V[j])
+      newline == (k = Len(V)) => \A j \in 1..k : Abs(e.lines[j].y - V[j] * e.lh) <= 2 + V[j]
+      disjoint == \A j \in 1..k : LET sp == e.lines[j].spans IN
+                     /\ Len(sp) > 0 /\ \A i \in 1..Len(sp) : sp[i].w >= 0
+                     /\ \A i \in 1..Len(sp)-1 : Right(sp[i]) <= sp[i+1].x + 1
+      align == \A j \in 1..k : Len(e.lines[j].spans) > 0 =>
+                  IF e.align = "L" THEN Abs(LeftOf(e.lines[j])) <= 2
+                  ELSE IF e.align = "R" THEN Abs(RightOf(e.lines[j])) <= 2
+                  ELSE Abs(LeftOf(e.lines[j]) + RightOf(e.lines[j])) <= 4
+      bounds == \A j \in 1..k : \A i \in 1..Len(e.lines[j].spans) : LET s == e.lines[j].spans[i] y == e.lines[j].y IN
+                   /\ e.bounds[1] <= s.x + 1 /\ Right(s) <= e.bounds[3] + 1
+                   /\ e.bounds[2] <= 0 - y - s.desc + 1 /\ 0 - y + s.asc <= e.bounds[4] + 1
+  IN (IF content THEN {} ELSE {"line-content"})
+     \cup (IF newline THEN {} ELSE {"line-newline-depth"})
+     \cup (IF disjoint THEN {} ELSE {"line-span-overlap"})
+     \cup (IF align THEN {} ELSE {"line-align"})
+     \cup (IF bounds THEN {} ELSE {"line-bounds"})
 
 \* K-P class of the line the breakpoints give to layout line j (three-valued, from the logged item widths)
 KPBound(e) == e.kp.ok /\ Len(e.kp.brk) = Len(e.lines)
@@ -93,7 +134,7 @@ KPLine(e, j) ==
       sl == Slack(Max2(0, b - After(it, a)) + 2, 1)
   IN [cls |-> BoxCls(e.width, L, Y, Z, sl, 1), forced |-> IsForced(it[b])]
 
-LFails(e) ==
+BoxFails(e) ==
   LET R == e.text  k == Len(e.lines)
       T == [j \in 1..k |-> LineText(e.lines[j])]
       ne == {j \in 1..k : Len(e.lines[j].spans) > 0}            \* lines that show something
@@ -126,10 +167,10 @@ LFails(e) ==
       inside == e.ovf \/ \A j \in ne : /\ LeftOf(e.lines[j]) >= 0 - 2
                                        /\ RightOf(e.lines[j]) <= e.width + LTol(e, e.lines[j])
       left == e.align = "L" => \A j \in ne : Abs(LeftOf(e.lines[j]) - FirstIndent(e, j)) <= 2
-      right == (e.align = "R" /\ ~e.ovf) => \A j \in ne : Abs(RightOf(e.lines[j]) - e.width) <= 2
+      right == (e.align = "R" /\ ~e.ovf) => \A j \in ne : Abs(RightOf(e.lines[j]) - e.width) <= 2 + OTol(e, e.lines[j])
       \* line 1 is centred in [indent, width], the others in [0, width]
       centre == (e.align = "C" /\ ~e.ovf) => \A j \in ne :
-                   Abs(LeftOf(e.lines[j]) + RightOf(e.lines[j]) - e.width - FirstIndent(e, j)) <= 4
+                   Abs(LeftOf(e.lines[j]) + RightOf(e.lines[j]) - e.width - FirstIndent(e, j)) <= 4 + OTol(e, e.lines[j])
       juststart == e.align = "J" => \A j \in ne : Abs(LeftOf(e.lines[j]) - FirstIndent(e, j)) <= 2
       \* justified: a line that is not the last of its paragraph ends at the width when its adjustment ratio is surely
       \* within [-1, Tolerance]; it is left at its natural width when the ratio is surely outside; the last line of a
@@ -150,6 +191,11 @@ LFails(e) ==
       \* which reports the top of the first and the bottom of the last line, is then not required to enclose)
       heights == e.ls < 0 \/ \A j \in ne : \A i \in 1..Len(e.lines[j].spans) : LET s == e.lines[j].spans[i] y == e.lines[j].y IN
                    /\ 0 - e.heights[1] <= y - s.asc + 1 /\ y + s.desc <= e.heights[2] + 1
+      \* inline objects: a span carries as many objects as its text has placeholder characters (none is lost or drawn
+      \* twice) and is as wide as its objects
+      objs == \A j \in ne : \A i \in 1..Len(e.lines[j].spans) : LET s == e.lines[j].spans[i] IN
+                 /\ Count(s.t, 1, Len(s.t), OBJ) = s.no
+                 /\ (s.no > 0 => Abs(s.w - s.no * e.objw) <= 2)
       general == (IF stacked THEN {} ELSE {"stacking"})
                  \cup (IF disjoint /\ nonneg THEN {} ELSE {"span-overlap"})
                  \cup (IF inside THEN {} ELSE {"outside-box"})
@@ -159,10 +205,13 @@ LFails(e) ==
      ELSE general
           \cup (IF once THEN {} ELSE IF DecompLoose(R, T) THEN {"newline-no-new-line"} ELSE {"content"})
           \cup (IF shy /\ shyend THEN {} ELSE {"soft-hyphen"})
+          \cup (IF objs THEN {} ELSE {"object-lost"})
           \cup (IF left THEN {} ELSE {"align-left"})
           \cup (IF right THEN {} ELSE {"align-right"})
           \cup (IF centre THEN {} ELSE {"align-centre"})
           \cup (IF juststart /\ just THEN {} ELSE {"align-justify"})
+
+LFails(e) == IF e.api = "line" THEN LineFails(e) ELSE BoxFails(e)
 
 \* feature (DESIGN.md appendix B): some line break falls on two or more consecutive breakable spaces
 BreakAtRepeatedSpace(e) ==
@@ -177,7 +226,7 @@ SpaceBeforeNewline(e) ==
 \* feature (mixed direction): some line starts, in logical order, with a span of embedding level >= 2 (a left-to-right
 \* word at the start of a line of a right-to-left paragraph)
 LineStartsEmbedded(e) == e.bidi /\ \E j \in 1..Len(e.lines) : Len(e.lines[j].spans) > 0 /\ e.lines[j].spans[1].lv >= 2
-LExplain(e) == LET dec == ~e.bidi /\ Decomp(e.text, [j \in 1..Len(e.lines) |-> LineText(e.lines[j])], 1, 1) IN
+LExplain(e) == LET dec == e.api # "line" /\ ~e.bidi /\ Decomp(e.text, [j \in 1..Len(e.lines) |-> LineText(e.lines[j])], 1, 1) IN
                [k |-> e.k, fails |-> LFails(e),
                 feat |-> (IF dec /\ BreakAtRepeatedSpace(e) THEN {"repspace"} ELSE {})
                          \cup (IF dec /\ SpaceBeforeNewline(e) THEN {"spacenl"} ELSE {})
@@ -192,18 +241,26 @@ Toks2 == Toks \cup {"crlf", "cr", "wo_zmen"}     \* CR LF (one line break), a lo
 \* "bidi": a right-to-left paragraph (starts with a Hebrew word) that contains left-to-right words in both faces
 BidiToks == {"heb", "sp", "on", "new2"}
 BidiOK(f) == f[1] = "heb" /\ (\E i \in DOMAIN f : f[i] = "on") /\ (\E i \in DOMAIN f : f[i] = "new2")
+\* "obj": inline objects between words of two faces, spaces and newlines (adjacent objects included)
+ObjToks == {"obj", "on", "new2", "sp", "nl"}
+HasObj(f) == \E i \in DOMAIN f : f[i] = "obj"
+\* "line": NewTextLine with every paragraph separator: LF, CR, CR LF, VT, FF, U+0085, U+2028, U+2029
+LineToks == {"on", "women", "sp", "hy", "nl", "cr", "crlf", "vt", "ff", "nel", "lsep", "psep"}
 \* "para": NTok words separated by single spaces, justified, absolute narrow widths (selectors 7..10 = 20..23 mm)
 Interleave(f) == [i \in 1..(2 * NTok - 1) |-> IF i % 2 = 1 THEN f[(i + 1) \div 2] ELSE "sp"]
 TokLists == IF LMode = "exh" THEN [1..NTok -> Toks]
             ELSE IF LMode = "exh2" THEN [1..NTok -> Toks2]
             ELSE IF LMode = "rand" THEN RandomSubset(NLRand, [1..NTok -> Toks2])
             ELSE IF LMode = "bidi" THEN {f \in (IF NLRand = 0 THEN [1..NTok -> BidiToks] ELSE RandomSubset(NLRand, [1..NTok -> BidiToks])) : BidiOK(f)}
+            ELSE IF LMode = "obj" THEN {f \in (IF NLRand = 0 THEN [1..NTok -> ObjToks] ELSE RandomSubset(NLRand, [1..NTok -> ObjToks])) : HasObj(f)}
+            ELSE IF LMode = "line" THEN (IF NLRand = 0 THEN [1..NTok -> LineToks] ELSE RandomSubset(NLRand, [1..NTok -> LineToks]))
             ELSE IF LMode = "para" THEN {Interleave(f) : f \in RandomSubset(NLRand, [1..NTok -> Words2])}
             ELSE {}
 Aligns == {"L", "R", "C", "J"}
 LInit == /\ items = <<>> /\ width = 0 /\ ph = 1 /\ lt = <<>>
-         /\ sc \in IF LMode = "para" THEN [toks : TokLists, wsel : 7..10, align : {"J"}, indent : {0}]
-                   ELSE [toks : TokLists, wsel : 1..MaxWSel, align : Aligns, indent : Indents]
+         /\ sc \in IF LMode = "para" THEN [toks : TokLists, wsel : 7..10, align : {"J"}, indent : {0}, api : {"box"}]
+                   ELSE IF LMode = "line" THEN [toks : TokLists, wsel : {6}, align : {"L", "R", "C"}, indent : {0}, api : {"line"}]
+                   ELSE [toks : TokLists, wsel : 1..MaxWSel, align : Aligns, indent : Indents, api : {"box"}]
 LNext == UNCHANGED lvars
 LSpec == LInit /\ [][LNext]_lvars
 EmitScenario == PrintT("@@" \o ToJson(sc))
@@ -250,12 +307,12 @@ ModelEvent(s) ==
                    lw == AdvSum(R, p, q) + (IF hyph THEN 1 ELSE 0)
                    x0 == (IF s.align = "R" THEN w - lw - (IF j = 1 THEN ind ELSE 0) ELSE 0) + (IF j = 1 THEN ind ELSE 0)
                IN [y |-> 3 * j, asc |-> 2, desc |-> 1, bot |-> 1, adj |-> 0, lw |-> lw,
-                   spans |-> IF q < p THEN <<>> ELSE <<[x |-> x0, w |-> lw, asc |-> 2, desc |-> 1, t |-> t, g |-> g]>>]
+                   spans |-> IF q < p THEN <<>> ELSE <<[x |-> x0, w |-> lw, asc |-> 2, desc |-> 1, no |-> 0, t |-> t, g |-> g]>>]
       ls == [j \in 1..Len(segs) |-> mk(j)]
       over == \E j \in 1..Len(ls) : ls[j].lw + (IF j = 1 THEN ind ELSE 0) > w
       xs == {ls[j].spans[1].x : j \in {j \in 1..Len(ls) : ls[j].spans # <<>>}} \cup {0}
       rs == {Right(ls[j].spans[1]) : j \in {j \in 1..Len(ls) : ls[j].spans # <<>>}} \cup {0}
-  IN [k |-> 0, text |-> R, width |-> w, indent |-> ind, align |-> s.align, ovf |-> over, u |-> 0, ls |-> 0, lines |-> ls,
+  IN [k |-> 0, api |-> "box", objw |-> 0, text |-> R, width |-> w, indent |-> ind, align |-> s.align, ovf |-> over, u |-> 0, ls |-> 0, lines |-> ls,
       bounds |-> <<MinOf(xs), 0 - 3 * Len(ls) - 1, CHOOSE v \in rs : \A z \in rs : z <= v, 0>>,
       heights |-> <<0, 3 * Len(ls) + 1>>,
       kp |-> [ok |-> FALSE, brk |-> <<>>], bidi |-> FALSE]
